@@ -23,7 +23,7 @@ def build_inputs(case, prefix="t"):
     arrs = []
     for i, (e, kind) in enumerate(zip(case["ins"], case["kinds"])):
         sh = shape(expand(e))
-        sort = {"int": "int", "coord": "int", "bool": "bool", "real": "real"}[kind]
+        sort = {"int": "int", "coord": "int", "bool": "bool", "real": "real", "uint8": "uint8"}[kind]
         nm = f"{'c' if kind == 'coord' else prefix}{i}"
         arrs.append(S.fresh(nm, sh, sort))
     return arrs
